@@ -333,7 +333,7 @@ def run(ctx):
     from pyunicorn.core.spatial_network import SpatialNetwork
     rng = ctx.rng
     quick = ctx.tier == "quick"
-    S = 3 if quick else 40           # budget scale
+    S = 3 if quick else 120          # budget scale (thorough: ~6 min)
     ctx.rule = (
         "kernel level: dyadic sine/cosine tables (k/16, |k|<=20, incl. values that make the "
         "expression leave [-1,1]) and dyadic coordinates (k/4) for which float32 arithmetic is "
@@ -352,8 +352,13 @@ def run(ctx):
     ctx.trusted = common.DEFAULT_TRUSTED + [
         "IEEE-754: float32 arithmetic on the dyadic kernel inputs is exact (all intermediate "
         "values have < 24 significant bits) — the reason the Rat model can be compared exactly",
-        "float32 rounding-error bounds (2^-10 abs, 2^-17 rel on [0.25, pi-0.25], 2^-20 rel "
-        "Euclidean) are sampled, not proved (partial)",
+        "angular accuracy: proved from a bound eta on the float32 evaluation error of the cosine "
+        "(theorems angular_entry_*); eta itself is sampled (cosine_error_observed), as are the angle "
+        "errors (2^-10 abs, 2^-17 rel on [0.25, pi-0.25]) (partial)",
+        "Euclidean accuracy 2^-20: proved under the standard model of floating point arithmetic "
+        "(|rnd v - v| <= 2^-24 |v| per operation, powf within 1 ulp, no overflow / underflow, <= 6 "
+        "dimensions: theorem euclidean_entry_accuracy_float32); that the hardware satisfies the "
+        "model is trusted, the bound is also sampled",
         "libm / numpy sin, cos, arccos, sqrt, powf: modelled as the real functions",
     ]
     ctx.assumptions = [
